@@ -114,6 +114,9 @@ def rec_units():
                ('key', 'ssh-ed25519-cert-v01@openssh.com', ['6.5'], 'ssh-ed25519-cert-v01@openssh.com', '6.5'),
                ('kex', 'gss-group14-sha256-*', ['7.0'], 'gss-group14-sha256-toWM5Slw5Ew8Mqkay+al2g==', '7.0'),
                ('kex', 'kex-strict-s-v00@openssh.com', ['9.6'], 'kex-strict-s-v00@openssh.com', '9.6'),
+               ('key', 'sk-ssh-ed25519@openssh.com', ['8.2'], 'sk-ssh-ed25519@openssh.com', '8.2'),
+               ('kex', 'ext-info-s', ['9.6'], 'ext-info-s', '9.6'),
+
                ('enc', 'client-only-alg', ['7.4C,d2020.1'], 'client-only-alg', None),
                ('mac', 'no-version-alg', [], 'no-version-alg', None),
                ('mac', 'none-version-alg', [None], 'none-version-alg', None)]
